@@ -264,6 +264,9 @@ func prepare(p *propCfg, repo string) (string, error) {
 	if p.Yield {
 		args = append(args, "-yield")
 	}
+	if p.Engine == "A" {
+		args = append(args, "-nochan")
+	}
 	out, err := run("", goEnv(), filepath.Join(verifDir, "bin", "rewrite"), args...)
 	if err != nil {
 		return "", fmt.Errorf("rewrite: %v\n%s", err, out)
